@@ -107,6 +107,11 @@ impl Acc for A {
 pub fn run(run: &mut Run) -> PResult {
     run.rule = "every five-card subset in canonical order plus seeded slot orders (quick 1, thorough 4): is_flush / is_straight / is_straight_flush / is_wheel against definitions computed from the documented card fields, agreement with the category obtained by ranking the same hand, or_rank_bits / and_bits against their definitions, deprecated free functions against the methods. Non-trivial = straights, flushes and the hands with a repeated rank whose distinct ranks span exactly five places (where a span test and a real straight test differ); distinct = distinct subsets".into();
     super::regress::replay_dir(run, "C13", check_case)?;
+    {
+        let t = poker::tables();
+        let items: Vec<[u32; 5]> = (1..=7462usize).map(|v| words_of_ci(&t.rep[v])).collect();
+        disturbance_pass(run, &items, &|w| examine(w).map_err(|(c, m)| format!("{}: {}", c, m)), &|w| ("C13.predicates".into(), hand_json(w), card::render_hand(w)))?;
+    }
     if !run.is_twin() {
         // call sequences: the predicates (deprecated free functions included) must not depend on earlier calls
         use super::multi::{neighbour, NEIGHBOUR_KINDS};
@@ -277,6 +282,9 @@ pub fn run(run: &mut Run) -> PResult {
 }
 
 pub fn check_case(clause: &str, case: &Value) -> Result<(), String> {
+    if clause.ends_with(".after_disturbance") {
+        return super::common::replay_after_disturbance(case, check_case);
+    }
     if clause == "C13.sequence" {
         let _ = examine(&words_of_ci(&[51u8, 47, 43, 39, 2]));
         for (i, h) in case["sequence"].as_array().ok_or("sequence")?.iter().enumerate() {
